@@ -96,6 +96,23 @@ CHECKS = {
              "outcomes and verdict with the model on the same schedule (all interleavings of small programs + random ones). Weak-memory effects are outside (SC scheduler).",
         design_ref="DESIGN.md section 7, C10",
         technique="Coq proof (invariants over all schedules, sequential-equivalence refinement) + scheduler-controlled co-execution"),
+    "C12": dict(
+        text="Machine-checked theorems (Props/C12.v): for EVERY schedule of any threads a single-use slot hands its value out at most once (delivery log NoDup, delivered iff the slot is "
+             "empty), every other request is the CannotReturnValueMoreThanOnce error and never a value; sequentially the first request returns it and later ones fail; repeat-use values "
+             "are stored by into_return (never emptied); the builder model refuses n_times/at_least_times/each-returns for non-Clone values and stores a non-Clone value only single-use. "
+             "Tied to /repo by (races) all interleavings of 2-3 threads racing for a slot on the real runtime under the controlled scheduler, (histories) live-value counts "
+             "(constructed - dropped) after every step and after teardown, (type level) model well-typedness = rustc verdict for every type state x builder method x {Clone, non-Clone}. "
+             "Composite returns (owned leaves inside Option/Result/Vec/Poll/tuples) are exercised by the C17 check.",
+        design_ref="DESIGN.md section 7, C12",
+        technique="Coq proof (single-delivery invariant over all schedules; type-state lemmas) + scheduler-controlled races, drop-counter histories and a rustc accept/reject sweep"),
+    "C13": dict(
+        text="Machine-checked theorems (Props/C13.v) about the value chain as write-once cells: a lent reference shows its own value in a fresh cell and keeps showing it after any number "
+             "of further lends; lending never drops anything, make_mut and release drop every value exactly once; concurrently through a shared &Unimock, for EVERY schedule of try_insert "
+             "steps, every reference shows its own value, no two share a cell, the chain is a permutation of the lent values and only grows. Tied to /repo by re-reading ALL held references "
+             "and the live-value count after every step of generated make_ref/make_mut sequences (three value types incl. a zero-sized guard) on original and clones, and by threads lending "
+             "through one instance under the controlled scheduler (all interleavings for small programs). Memory safety itself is delegated to forbid(unsafe_code) (checked textually).",
+        design_ref="DESIGN.md section 7, C13",
+        technique="Coq proof (append-only chain laws; invariants over all schedules) + sequence and scheduler-controlled co-execution with drop counters"),
 }
 
 NOT_YET = "check not built yet (work in progress in this session; designed in DESIGN.md section 7)"
